@@ -280,7 +280,7 @@ class VoxelGrid(Geometry):
         volume : float
           Volume of filled cells.
         """
-        return self.filled_count * self.element_volume
+        return self.filled_count * abs(self.element_volume)
 
     @caching.cache_decorator
     def points(self):
